@@ -13,7 +13,8 @@ CONSTANTS NHandles,   \* number of handles that may be obtained (GetConn with th
           NClosers,   \* one-shot processes k1, k2, ... each calling Close on one handle (started in this order: they are interchangeable)
           NReaders,   \* one-shot processes r1, r2, ... each calling ReadFrom on one handle (started in this order)
           MaxGrams,   \* datagrams that arrive for the underlying connection
-          MaxWrites   \* WriteTo calls (atomic, result observed)
+          MaxWrites,  \* WriteTo calls (atomic, result observed)
+          MaxDl       \* SetReadDeadline calls (a deadline in the past / no deadline) on handles
 VARIABLES got,      \* number of handles obtained so far
           cancelled,\* cancelled[h]: the handle's own context is cancelled
           once,     \* once[h]: "fresh" | "running" | "done"
@@ -24,8 +25,9 @@ VARIABLES got,      \* number of handles obtained so far
           kpc, kh,  \* closer: yield point / handle
           rpc, rh, rres, \* reader: "idle" | "pending" | "ret", handle, result "none" | "data" | "closed" | "eof"
           sent, writes, \* datagrams delivered so far, writes done so far
-          wlast     \* the last write: <<h, "ok" | "closed", had a Close(h) returned before it>>
-vars == <<got, cancelled, once, refs, uclosed, ucloses, qn, kpc, kh, rpc, rh, rres, sent, writes, wlast>>
+          wlast,    \* the last write: <<h, "ok" | "closed", had a Close(h) returned before it>>
+          dl, ndl   \* dl[h]: handle h has a read deadline that lies in the past (a handle's own setting); calls so far
+vars == <<got, cancelled, once, refs, uclosed, ucloses, qn, kpc, kh, rpc, rh, rres, sent, writes, wlast, dl, ndl>>
 Handles == SubSeq(<<"h1", "h2", "h3", "h4">>, 1, NHandles)
 CloserSeq == SubSeq(<<"k1", "k2", "k3", "k4">>, 1, NClosers)
 ReaderSeq == SubSeq(<<"r1", "r2", "r3", "r4">>, 1, NReaders)
@@ -40,21 +42,22 @@ Init == /\ got = 0 /\ cancelled = [h \in HS |-> FALSE] /\ once = [h \in HS |-> "
         /\ kpc = [k \in Closers |-> "idle"] /\ kh = [k \in Closers |-> Handles[1]]
         /\ rpc = [r \in Readers |-> "idle"] /\ rh = [r \in Readers |-> Handles[1]] /\ rres = [r \in Readers |-> "none"]
         /\ sent = 0 /\ writes = 0 /\ wlast = <<"-", "-", FALSE>>
+        /\ dl = [h \in HS |-> FALSE] /\ ndl = 0
 Closing == \E k \in Closers : kpc[k] \in {"cancel", "unref", "uclose"}
 \* GetConn for the same ufrag: a further handle on the same underlying connection (not while a Close is in progress,
 \* not once the underlying connection has been closed: the mux would create a new one)
 Get == /\ got < Len(Handles) /\ ~uclosed /\ ~Closing /\ (got = 0 \/ refs > 0)
        /\ got' = got + 1 /\ refs' = refs + 1
-       /\ UNCHANGED <<cancelled, once, uclosed, ucloses, qn, kpc, kh, rpc, rh, rres, sent, writes, wlast>>
+       /\ UNCHANGED <<cancelled, once, uclosed, ucloses, qn, kpc, kh, rpc, rh, rres, sent, writes, wlast, dl, ndl>>
 \* ---- Close(h) by closer k
 CloseStart(k, h) == /\ kpc[k] = "idle" /\ h \in Have /\ InOrder(CloserSeq, kpc, k)
                     /\ kpc' = [kpc EXCEPT ![k] = "close"] /\ kh' = [kh EXCEPT ![k] = h]
-                    /\ UNCHANGED <<got, cancelled, once, refs, uclosed, ucloses, qn, rpc, rh, rres, sent, writes, wlast>>
+                    /\ UNCHANGED <<got, cancelled, once, refs, uclosed, ucloses, qn, rpc, rh, rres, sent, writes, wlast, dl, ndl>>
 CloseEnter(k) == /\ kpc[k] = "close" /\ once[kh[k]] # "running"
                  /\ IF once[kh[k]] = "fresh"
                     THEN once' = [once EXCEPT ![kh[k]] = "running"] /\ kpc' = [kpc EXCEPT ![k] = "cancel"]
                     ELSE UNCHANGED once /\ kpc' = [kpc EXCEPT ![k] = "ret"]
-                 /\ UNCHANGED <<got, cancelled, refs, uclosed, ucloses, qn, kh, rpc, rh, rres, sent, writes, wlast>>
+                 /\ UNCHANGED <<got, cancelled, refs, uclosed, ucloses, qn, kh, rpc, rh, rres, sent, writes, wlast, dl, ndl>>
 \* cancel the handle's context: its blocked reads return "closed"
 Cancel(k) == /\ kpc[k] = "cancel"
              /\ cancelled' = [cancelled EXCEPT ![kh[k]] = TRUE]
@@ -62,39 +65,47 @@ Cancel(k) == /\ kpc[k] = "cancel"
                 /\ rpc' = [r \in Readers |-> IF r \in woken THEN "ret" ELSE rpc[r]]
                 /\ rres' = [r \in Readers |-> IF r \in woken THEN "closed" ELSE rres[r]]
              /\ kpc' = [kpc EXCEPT ![k] = "unref"]
-             /\ UNCHANGED <<got, once, refs, uclosed, ucloses, qn, kh, rh, sent, writes, wlast>>
+             /\ UNCHANGED <<got, once, refs, uclosed, ucloses, qn, kh, rh, sent, writes, wlast, dl, ndl>>
 Unref(k) == /\ kpc[k] = "unref" /\ refs' = refs - 1
             /\ IF refs - 1 <= 0 THEN kpc' = [kpc EXCEPT ![k] = "uclose"] /\ UNCHANGED once
                ELSE kpc' = [kpc EXCEPT ![k] = "ret"] /\ once' = [once EXCEPT ![kh[k]] = "done"]
-            /\ UNCHANGED <<got, cancelled, uclosed, ucloses, qn, kh, rpc, rh, rres, sent, writes, wlast>>
+            /\ UNCHANGED <<got, cancelled, uclosed, ucloses, qn, kh, rpc, rh, rres, sent, writes, wlast, dl, ndl>>
 \* close the underlying connection: queue dropped, reads still blocked on it (none, if the counting is right) see EOF
 UClose(k) == /\ kpc[k] = "uclose" /\ uclosed' = TRUE /\ ucloses' = ucloses + 1 /\ qn' = 0
              /\ LET woken == {r \in Readers : rpc[r] = "pending"} IN
                 /\ rpc' = [r \in Readers |-> IF r \in woken THEN "ret" ELSE rpc[r]]
                 /\ rres' = [r \in Readers |-> IF r \in woken THEN "eof" ELSE rres[r]]
              /\ once' = [once EXCEPT ![kh[k]] = "done"] /\ kpc' = [kpc EXCEPT ![k] = "ret"]
-             /\ UNCHANGED <<got, cancelled, refs, kh, rh, sent, writes, wlast>>
+             /\ UNCHANGED <<got, cancelled, refs, kh, rh, sent, writes, wlast, dl, ndl>>
 \* ---- ReadFrom(h) by reader r: returns at once (closed handle / queued datagram / closed underlying) or blocks
 RStart(r, h) == /\ rpc[r] = "idle" /\ h \in Have /\ InOrder(ReaderSeq, rpc, r) /\ rh' = [rh EXCEPT ![r] = h]
                 /\ IF cancelled[h] THEN rpc' = [rpc EXCEPT ![r] = "ret"] /\ rres' = [rres EXCEPT ![r] = "closed"] /\ UNCHANGED qn
                    ELSE IF qn > 0 THEN rpc' = [rpc EXCEPT ![r] = "ret"] /\ rres' = [rres EXCEPT ![r] = "data"] /\ qn' = qn - 1
+                   \* a deadline that has passed: the read returns at once (a closed underlying connection may be noticed first)
+                   ELSE IF dl[h] THEN /\ rpc' = [rpc EXCEPT ![r] = "ret"] /\ UNCHANGED qn
+                                      /\ \E x \in (IF uclosed THEN {"eof", "timeout"} ELSE {"timeout"}) : rres' = [rres EXCEPT ![r] = x]
                    ELSE IF uclosed THEN rpc' = [rpc EXCEPT ![r] = "ret"] /\ rres' = [rres EXCEPT ![r] = "eof"] /\ UNCHANGED qn
                    ELSE rpc' = [rpc EXCEPT ![r] = "pending"] /\ UNCHANGED <<rres, qn>>
-                /\ UNCHANGED <<got, cancelled, once, refs, uclosed, ucloses, kpc, kh, sent, writes, wlast>>
+                /\ UNCHANGED <<got, cancelled, once, refs, uclosed, ucloses, kpc, kh, sent, writes, wlast, dl, ndl>>
 \* ---- a datagram for the underlying connection: a blocked reader (whichever the runtime wakes) gets it, else it is
 \* queued (dropped if the connection is closed)
 DeliverQ == /\ sent < MaxGrams /\ got > 0 /\ sent' = sent + 1
             /\ (uclosed \/ ~\E r \in Readers : rpc[r] = "pending")
             /\ qn' = (IF uclosed THEN qn ELSE qn + 1)
-            /\ UNCHANGED <<got, cancelled, once, refs, uclosed, ucloses, kpc, kh, rpc, rh, rres, writes, wlast>>
+            /\ UNCHANGED <<got, cancelled, once, refs, uclosed, ucloses, kpc, kh, rpc, rh, rres, writes, wlast, dl, ndl>>
 DeliverWake(r) == /\ sent < MaxGrams /\ got > 0 /\ sent' = sent + 1 /\ ~uclosed /\ rpc[r] = "pending"
                   /\ rpc' = [rpc EXCEPT ![r] = "ret"] /\ rres' = [rres EXCEPT ![r] = "data"]
-                  /\ UNCHANGED <<got, cancelled, once, refs, uclosed, ucloses, qn, kpc, kh, rh, writes, wlast>>
+                  /\ UNCHANGED <<got, cancelled, once, refs, uclosed, ucloses, qn, kpc, kh, rh, writes, wlast, dl, ndl>>
 \* ---- WriteTo(h)
 Write(h) == /\ writes < MaxWrites /\ h \in Have /\ writes' = writes + 1
             /\ wlast' = <<h, IF cancelled[h] \/ uclosed THEN "closed" ELSE "ok", \E k \in Closers : kpc[k] = "ret" /\ kh[k] = h>>
-            /\ UNCHANGED <<got, cancelled, once, refs, uclosed, ucloses, qn, kpc, kh, rpc, rh, rres, sent>>
-Next == \/ Get \/ DeliverQ \/ (\E r \in Readers : DeliverWake(r))
+            /\ UNCHANGED <<got, cancelled, once, refs, uclosed, ucloses, qn, kpc, kh, rpc, rh, rres, sent, dl, ndl>>
+\* ---- SetReadDeadline(h): a handle's own read deadline (v: it lies in the past / there is none); reads in progress are not affected
+SetRD(h, v) == /\ ndl < MaxDl /\ h \in Have /\ ~cancelled[h] /\ dl[h] # v
+               /\ dl' = [dl EXCEPT ![h] = v] /\ ndl' = ndl + 1
+               /\ UNCHANGED <<got, cancelled, once, refs, uclosed, ucloses, qn, kpc, kh, rpc, rh, rres, sent, writes, wlast>>
+Next == \/ (\E h \in HS, v \in BOOLEAN : SetRD(h, v))
+        \/ Get \/ DeliverQ \/ (\E r \in Readers : DeliverWake(r))
         \/ \E k \in Closers : (\E h \in HS : CloseStart(k, h)) \/ CloseEnter(k) \/ Cancel(k) \/ Unref(k) \/ UClose(k)
         \/ \E r \in Readers, h \in HS : RStart(r, h)
         \/ \E h \in HS : Write(h)
@@ -108,6 +119,6 @@ UnderlyingClosedOnce == /\ ucloses <= 1 /\ (uclosed <=> ucloses = 1)
                         /\ ((got > 0 /\ \A h \in Have : CloseReturned(h)) => uclosed)
 OwnIOFails == /\ \A r \in Readers : CloseReturned(rh[r]) /\ rpc[r] # "idle" => rpc[r] = "ret"
               /\ wlast[3] => wlast[2] # "ok"
-SiblingsUsable == /\ \A r \in Readers : (rpc[r] = "ret" /\ Untouched(rh[r])) => rres[r] = "data"
+SiblingsUsable == /\ \A r \in Readers : (rpc[r] = "ret" /\ Untouched(rh[r]) /\ rres[r] # "timeout") => rres[r] = "data"
                   /\ (wlast[1] \in HS /\ Untouched(wlast[1])) => wlast[2] = "ok"
 ====
